@@ -342,8 +342,25 @@ class Program:
             return out
 
         before, after = _called(facts["fns"]), _called(fns_json)
+        # closures whose bodies were spliced into their parents by the combinator desugaring and that are no longer built
+        # as closure values anywhere: analysed in place, like spliced helpers
+        absorbed = set()
+        for j in fns_json:
+            absorbed |= set(j.get("desugared", []))
+        if absorbed:
+            still = set()
+            for j in fns_json:
+                for b in j["blocks"]:
+                    for st_ in b["stmts"]:
+                        if st_["k"] == "assign" and isinstance(st_["rv"].get("agg"), dict) and st_["rv"]["agg"].get("closure"):
+                            still.add(st_["rv"]["agg"].get("key"))
+            absorbed -= still
+        self.absorbed_closures = absorbed
         for j in fns_json:
             f = Fn(self, j)
+            if f.key in absorbed:
+                self.helpers[f.key] = f
+                continue
             if is_private_helper(j) and f.key in before and f.key not in after:
                 # every call of this helper was spliced into its callers: it is analysed there, in context.
                 # (A new function nobody calls - new public API - stays in the table and is analysed on its own.)
